@@ -57,4 +57,15 @@ def unsoundAt (idx : Nat) : List String :=
     | some _, none => true          -- a rule without a documented capability
     | none, _ => false)
 
+/-- the same search with the record being ABOUT stream `ks` / topic `kt` while the request is for (S, T):
+finds a rule that looks a table up under the wrong key (a permission on one stream or topic opening another) -/
+def unsoundAtKeys (idx ks kt : Nat) : List String :=
+  let p := decode idx ks kt
+  let t := tablesOf U p
+  publicRules.filter (fun n =>
+    match allRules.find? (fun e => e.1 == n), needs n S T with
+    | some e, some c => e.2 t U S T == Res.ok && !(Grants p c)
+    | some _, none => true
+    | none, _ => false)
+
 end Iggy.Perm
